@@ -32,6 +32,10 @@ type histCfg struct {
 	NewMon   func(w *world) monitor
 	Setup    func(w *world, m monitor) // unchecked prefix (e.g. a logon) applied before the enumerated part
 	MaxSteps int
+	// Leaf marks events that may stand only in the last two positions of a history of full depth (events
+	// that, by the property under test, leave the state as it is: they are judged where they stand and as
+	// the predecessor of one more event, but are not used to build up states).
+	Leaf map[string]bool
 }
 
 type histReplay struct {
@@ -119,6 +123,9 @@ func exploreHist(R *vlib.Out, c *histCfg) {
 			return
 		}
 		for k := 0; k < na && !stop; k++ {
+			if c.Leaf[c.Alphabet[k].Name] && len(hist) < c.Depth-2 {
+				continue
+			}
 			h2 := append(append([]int{}, hist...), k)
 			mine := own(h2)
 			if len(h2) >= 2 && !mine {
@@ -153,6 +160,9 @@ func exploreHist(R *vlib.Out, c *histCfg) {
 	rec(nil)
 	R.Bounds["depth:"+c.Name] = c.Depth
 	R.Bounds["alphabet:"+c.Name] = na
+	if len(c.Leaf) > 0 {
+		R.Bounds["leaf-events(last two positions only):"+c.Name] = len(c.Leaf)
+	}
 }
 
 func replayHist(R *vlib.Out, cfgs []*histCfg) {
